@@ -212,7 +212,11 @@ func (p *LiteralPolicy) IsSmallInt(c constant.Value) bool {
 	}
 	val, exact := constant.Int64Val(c)
 	if !exact {
-		return false
+		// The constant does not fit in int64 (e.g. a uint64 mask such as 0xFFFFFFFFFFFFFFFF).
+		// A policy whose range spans all of int64 (KeepAllLiteralsPolicy) keeps every integer
+		// literal; it must not abstract these, or two functions that differ only in such a
+		// constant would share a fingerprint even with all literals kept.
+		return p.SmallIntMin == math.MinInt64 && p.SmallIntMax == math.MaxInt64
 	}
 	return val >= p.SmallIntMin && val <= p.SmallIntMax
 }
